@@ -7,6 +7,7 @@ import (
 	"go/token"
 	"go/types"
 	"hash/fnv"
+	"os"
 	"sort"
 	"strings"
 	"time"
@@ -432,10 +433,35 @@ func (e *Engine) runBlockBody(fr *frame, b *ssa.BasicBlock, pred *ssa.BasicBlock
 	e.runFrom(fr, b, idx, st, k)
 }
 
+var forkHist = func() map[string]int {
+	if os.Getenv("DGV_PATHDBG") != "" {
+		return map[string]int{}
+	}
+	return nil
+}()
+
 func (e *Engine) countPath() {
 	e.cur.paths++
-	if e.cur.paths > e.MaxPaths {
-		unsupported("path limit %d exceeded", e.MaxPaths)
+	limit := e.MaxPaths
+	if e.cur.spec != nil && e.cur.spec.MaxPaths > limit {
+		limit = e.cur.spec.MaxPaths
+	}
+	if e.cur.paths > limit {
+		if os.Getenv("DGV_PATHDBG") != "" {
+			type kv struct {
+				k string
+				n int
+			}
+			var l []kv
+			for k, n := range forkHist {
+				l = append(l, kv{k, n})
+			}
+			sort.Slice(l, func(i, j int) bool { return l[i].n > l[j].n })
+			for i := 0; i < len(l) && i < 25; i++ {
+				fmt.Fprintf(os.Stderr, "FORK %6d %s\n", l[i].n, l[i].k)
+			}
+		}
+		unsupported("path limit %d exceeded", limit)
 	}
 	if e.cur.paths%16 == 0 && !e.cur.deadline.IsZero() && time.Now().After(e.cur.deadline) {
 		unsupported("per-function time budget exceeded (%d paths so far)", e.cur.paths)
@@ -463,6 +489,9 @@ func (e *Engine) runFrom(fr *frame, b *ssa.BasicBlock, idx int, st *State, k con
 			st2 := st.clone()
 			fr2 := fr.clone()
 			txt := e.P.ExprText(x.Cond.Pos(), func(n ast.Node) bool { _, ok := n.(ast.Expr); return ok })
+			if forkHist != nil {
+				forkHist[fr.fn.Name()+": "+txt]++
+			}
 			st.assume(cond)
 			st.path = append(st.path, txt+"=T")
 			e.runBlock(fr, b.Succs[0], b, st, k)
